@@ -75,3 +75,15 @@ PLANS["C03"] = dict(
              "none favoured by vertex order": "bounded frequencies; follows from uniformity"},
     assumptions=_GEN_ASSUME + ["M-PUSH: push-forward of independent uniform permutations under consecutive grouping is the configuration-model measure"],
     not_decided=["uniformity of CPython's random.shuffle itself (assumed library contract)"])
+
+PLANS["C04"] = dict(
+    level="proof", bounded="c04",
+    modules=[dict(name="convert")],
+    technique="deductive verification of the real EdgeListToNetwork.convert and NetworkToEdgeList.convert over an abstract networkx graph state (assumed library contracts), dictionary-building loop invariants, and a round-trip lemma over the two contracts, VCs from the AST in z3/cvc5; exhaustive small edge lists as labelled stand-in",
+    level_text="Both conversions are proved against contracts stating exactly the property (node set = 0..N-1 with annotations, adjacency iff the pair occurs, single-occurrence entries keep their name and motif id, reverse direction reads back annotations along the library's edge enumeration); the round trip is a lemma verified modularly from the two contracts alone. For all edge lists (any N, zero-degree vertices, self-loops, repeats).",
+    level_note="Trusted: vf VC generator, z3/cvc5; assumed networkx contracts: Graph(), add_nodes_from, add_edges_from, set_node_attributes, set_edge_attributes, G.edges() (duplicate-free enumeration), G.nodes[n][k], G.edges[e][k], len(G.nodes()); dict/list primitives.",
+    explanation="PROVED on the real source for all inputs: forward conversion (nodes, joint_degree, edges, attrs_once, all_edges_annotated, attrs_symmetric, input unchanged; loop invariants 'domain = entries seen so far, last writer wins'), reverse conversion (joint degrees, edge list = library edge enumeration, aligned annotations, no KeyError under the stated precondition), and the round-trip lemma (same joint degrees, no edge lost or invented, each edge once, annotations of single entries survive). BOUNDED (stand-in): every edge list with <= 3 entries over 3 vertices.",
+    clauses={"one vertex per joint degree entry, annotated": "proved (convert:ensures.nodes, ensures.joint_degree)",
+             "edge iff the pair occurs": "proved (ensures.edges)",
+             "single-occurrence entries keep topology and motif id": "proved (ensures.attrs_once)",
+             "round trip is the identity up to order and orientation": "proved (RoundTrip.roundtrip:ensures.*) from the two contracts"})
